@@ -939,7 +939,9 @@ class Interp(object):
         fr.lookup('log')
         return False
       except KeyError:
-        return True
+        pass
+      # a harness may keep selected log functions observable (e.g. log.err in the writer)
+      return f.attr not in self.ext.get('keep_log', ())
     return False
 
   def e_Call(self, n, fr):
